@@ -10,6 +10,10 @@ CLAIMS = {
    text="Proof (Lean 4, every block size, checksum function and record list): the reader inverts the writer (C12_roundtrip), also across any close/reopen split (C12_resume), repair is idempotent, keeps exactly the readable prefix and appends after it read back (C12_repair_*, C12_append_after_repair). The byte-exact model is tied to the real Wal/Reader/repair by file-hash equality and by reading every generated truncation / bit-flip / byte-overwrite / recovery flow with both. Truncation- and damage-prefix behaviour is validated by that sweep, not yet proved (partial).",
    note="Trusted: Lean kernel + standard axioms; transcription of src/wal/{writer,reader,manager,recovery}.rs; CRC-32 detects the applied damage (evaluated per input); LZ4 opaque and not exercised; constants BLOCK_SIZE/HEADER_SIZE/record types regenerated from src/wal/mod.rs on every run.",
    technique="Lean 4 proof (round trip, resume, repair) + byte-exact differential sweep of truncation/damage", ref="DESIGN.md §6 C12"),
+ "C04": dict(
+   text="Invariant proof (Lean 4) over the oracle transition system for every GC interval and every sequence of commits and failed commits: an accepted conflict check never overlooks a live batch stamped after the checker began (C04_check_sound), two live batches sharing a key never overlap in time (C04_first_committer_wins), rollback of a failed batch preserves this (C04_rollback_preserves), GC never prunes the window of a registered transaction (C04_gc_safe). No-false-abort is proved for traces without failed commits (_partial); the remaining false-abort after two failed in-flight commits on one key is a recorded known finding with a kernel-checked witness. The model is run against the real CommitOracle on thousands of pipeline-shaped op strings incl. GC bursts.",
+   note="Trusted: Lean kernel + standard axioms; transcription of src/oracle.rs; atomicity of check+allocate+publish under write_mutex is an assumption of the oracle model (the pipeline's schedule-level behaviour belongs to C05); fingerprint collisions only add conflicts.",
+   technique="Lean 4 invariant proof over a transition system + differential correspondence with the real CommitOracle", ref="DESIGN.md §6 C04"),
 }
 props = [json.loads(l) for l in open('/verif/properties.jsonl')]
 hooks = subprocess.run(["git", "-C", "/repo", "log", "--format=%h %s"], capture_output=True, text=True).stdout.splitlines()
